@@ -21,7 +21,8 @@ pub struct Campaign {
     pub filter: Option<fn(&Tree) -> bool>,
 }
 
-pub type Extra = dyn Fn(&Tree, &str, &Table, &mut Acc) + Sync;
+/// extra per-text hook: (tree, text, is_default_rendering, table, acc)
+pub type Extra = dyn Fn(&Tree, &str, bool, &Table, &mut Acc) + Sync;
 
 #[derive(Clone)]
 pub struct RawViolation {
@@ -142,7 +143,7 @@ pub fn run_campaign(c: &Campaign, rep: &mut Report, prop: &'static str, extra: O
                             }
                         }
                         if let Some(ex) = extra {
-                            ex(&tree, &text, &table, acc);
+                            ex(&tree, &text, cv.iter().all(|x| *x == 0) && blank == c.blanks[0], &table, acc);
                         }
                         if (idx + rep.seed) % 9973 == 0 && cv.iter().all(|x| *x == 0) && blank == c.blanks[0] {
                             acc.sample(json!({"campaign": c.name, "tree": tree.show(&table), "text": text, "expected": show(&expect, &table)}));
